@@ -9,6 +9,7 @@ package c20
 
 import (
 	"context"
+	"errors"
 	"fmt"
 	"io"
 	"log/slog"
@@ -58,8 +59,15 @@ type reqSpec struct {
 	hdr     string
 	body    string
 	ctxVal  string
-	status  int  // 0: the handler sets none
-	early   int  // > 0: an informational 1xx header sent before the final status
+	status  int    // 0: the handler sets none
+	early   int    // > 0: an informational 1xx header sent before the final status
+	failAt  int    // >= 0: the client is gone from its failAt-th body write on
+	method2 string // what a rewriting middleware in the chain turns the method into
+	uri2    string // ... and the request URI
+	hMethod string // method and request URI the wrapped handler must observe
+	hURI    string
+	lMethod string // method and request URI its context logger must carry
+	lURI    string
 	panics  bool // the handler panics with http.ErrAbortHandler after replying
 	reply   string
 	wrapped int // which of the Wrap results serves it
@@ -77,6 +85,7 @@ type world struct {
 	logs  map[int][]logRec // (S) request id -> records seen by the base log handler
 	keep  bool             // base log handler retains the attribute slice given to WithAttrs
 	level slog.Level       // base log handler's level
+	rewr  bool             // a rewriting middleware is in the chain
 }
 
 type logRec struct {
@@ -110,6 +119,32 @@ func (m recMw) Wrap(h http.Handler) http.Handler {
 		id := w.me("mw.enter")
 		w.k.Tell("mw.note", func() { w.trail[id] = append(w.trail[id], "mw"+kernel.Itoa(j)) })
 		h.ServeHTTP(rw, r)
+	})
+}
+
+// rewriteMw is what a method-override or prefix-rewriting middleware does: it
+// hands a derived request (same context) to the next handler.
+type rewriteMw struct {
+	w *world
+	j int
+}
+
+func (m rewriteMw) Wrap(h http.Handler) http.Handler {
+	return http.HandlerFunc(func(rw http.ResponseWriter, r *http.Request) {
+		j := m.j
+		w := m.w
+		id := w.me("rewrite.enter")
+		w.k.Tell("rewrite.note", func() { w.trail[id] = append(w.trail[id], "mw"+kernel.Itoa(j)) })
+		if id < 0 {
+			h.ServeHTTP(rw, r)
+
+			return
+		}
+		sp := w.specs[id]
+		r2 := r.Clone(r.Context())
+		r2.Method = sp.method2
+		r2.RequestURI = sp.uri2
+		h.ServeHTTP(rw, r2)
 	})
 }
 
@@ -164,11 +199,23 @@ func (h *baseHandler) Handle(_ context.Context, r slog.Record) error {
 	for _, a := range h.attrs {
 		got[a.Key] = a.Value.String()
 	}
-	if len(h.attrs) != 4 || got["host"] != sp.host || got["method"] != sp.method ||
-		got["raddr"] != sp.raddr || got["request_uri"] != sp.uri {
+	// The handler's own record comes from the logger in its context, which
+	// must describe the request as the handler received it; a record of a
+	// LogMiddleware itself describes the request as that middleware received
+	// it (before or after the rewriting middleware, if there is one).
+	wantMethod, wantURI := sp.lMethod, sp.lURI
+	if r.Message != "inner" && w.rewr && got["method"] != wantMethod {
+		if wantMethod == sp.method {
+			wantMethod, wantURI = sp.method2, sp.uri2
+		} else {
+			wantMethod, wantURI = sp.method, sp.uri
+		}
+	}
+	if len(h.attrs) != 4 || got["host"] != sp.host || got["method"] != wantMethod ||
+		got["raddr"] != sp.raddr || got["request_uri"] != wantURI {
 		w.k.Report("foreign-log-attrs", "LogMiddleware.Wrap", fmt.Sprintf(
 			"record %q logged while serving request %d carries logger attributes %v, want host=%s method=%s raddr=%s request_uri=%s",
-			r.Message, id, h.attrs, sp.host, sp.method, sp.raddr, sp.uri))
+			r.Message, id, h.attrs, sp.host, wantMethod, sp.raddr, wantURI))
 
 		return nil
 	}
@@ -210,9 +257,9 @@ func (w *world) innerHandler(rw http.ResponseWriter, r *http.Request) {
 	observe := func() bool {
 		ctxVal, _ := r.Context().Value(ctxKey{}).(string)
 
-		return check("method", r.Method, sp.method) && check("URL", r.URL.String(), sp.url) &&
+		return check("method", r.Method, sp.hMethod) && check("URL", r.URL.String(), sp.url) &&
 			check("host", r.Host, sp.host) && check("header X-Id", r.Header.Get("X-Id"), sp.hdr) &&
-			check("remote address", r.RemoteAddr, sp.raddr) && check("request URI", r.RequestURI, sp.uri) &&
+			check("remote address", r.RemoteAddr, sp.raddr) && check("request URI", r.RequestURI, sp.hURI) &&
 			check("context value", ctxVal, sp.ctxVal)
 	}
 	if !observe() {
@@ -239,6 +286,10 @@ func (w *world) innerHandler(rw http.ResponseWriter, r *http.Request) {
 		rw.WriteHeader(sp.status)
 		k.Yield("handler.3")
 	}
+	if sp.status == http.StatusSwitchingProtocols {
+		// The final status of an upgrade; no body follows.
+		return
+	}
 	_, _ = io.WriteString(rw, sp.reply[:len(sp.reply)/2])
 	k.Yield("handler.4")
 	_, _ = io.WriteString(rw, sp.reply[len(sp.reply)/2:])
@@ -254,19 +305,24 @@ func (w *world) innerHandler(rw http.ResponseWriter, r *http.Request) {
 
 // clientRW is the client's end of one request: a ResponseWriter with
 // net/http's semantics for status codes (informational 1xx headers do not
-// end the header phase; the first final status wins; Write implies 200).
+// end the header phase, except 101; the first final status wins; Write
+// implies 200).  A client that has gone away fails every later body write.
 type clientRW struct {
-	hdr   http.Header
-	body  []byte
-	infos []int
-	code  int
+	hdr    http.Header
+	body   []byte
+	infos  []int
+	code   int
+	failAt int
+	writes int
 }
+
+var errClientGone = errors.New("verif: client went away")
 
 func (c *clientRW) Header() http.Header { return c.hdr }
 
 func (c *clientRW) WriteHeader(code int) {
 	switch {
-	case code >= 100 && code < 200:
+	case code >= 100 && code < 200 && code != http.StatusSwitchingProtocols:
 		c.infos = append(c.infos, code)
 	case c.code == 0:
 		c.code = code
@@ -276,6 +332,10 @@ func (c *clientRW) WriteHeader(code int) {
 func (c *clientRW) Write(b []byte) (int, error) {
 	if c.code == 0 {
 		c.code = http.StatusOK
+	}
+	c.writes++
+	if c.failAt >= 0 && c.writes > c.failAt {
+		return 0, errClientGone
 	}
 	c.body = append(c.body, b...)
 
@@ -309,12 +369,28 @@ func run(rc *kernel.RunCtx) {
 	nRec := tp.Choose(4)
 	pos := tp.Choose(nRec + 1)
 	pos2 := -1
-	if nRec > 0 && tp.Bool(1, 4) {
+	if nRec > 0 && tp.Bool(1, 3) {
 		pos2 = tp.Choose(nRec + 1)
 		if pos2 == pos {
 			pos2 = -1
 		}
 	}
+	// The second one may be the same instance (a LogMiddleware that wraps both
+	// a router and handlers registered in it), and one of the other
+	// middlewares may rewrite method and request URI.
+	sameInstance := pos2 >= 0 && tp.Bool(1, 2)
+	rewrPos := -1
+	if nRec > 0 && tp.Bool(1, 3) {
+		rewrPos = tp.Choose(nRec + 1)
+		if lo, hi := min(pos, pos2), max(pos, pos2); lo >= 0 && hi-lo >= 2 && tp.Bool(1, 2) {
+			rewrPos = lo + 1 + tp.Choose(hi-lo-1)
+		}
+		if rewrPos == pos || rewrPos == pos2 {
+			rewrPos = -1
+		}
+	}
+	w.rewr = rewrPos >= 0
+	lastLog := max(pos, pos2)
 	nLogMw := 1
 	var mws []httputil.Middleware
 	for j := 0; j <= nRec; j++ {
@@ -323,10 +399,22 @@ func run(rc *kernel.RunCtx) {
 			mws = append(mws, logMwAt{w: w, mw: logMw, j: j})
 		case pos2:
 			nLogMw = 2
-			mws = append(mws, logMwAt{w: w, mw: httputil.NewLogMiddleware(base, mwLevel), j: j})
+			mw2 := logMw
+			if !sameInstance {
+				mw2 = httputil.NewLogMiddleware(base, mwLevel)
+			}
+			mws = append(mws, logMwAt{w: w, mw: mw2, j: j})
+		case rewrPos:
+			mws = append(mws, rewriteMw{w: w, j: j})
 		default:
 			mws = append(mws, recMw{w: w, j: j})
 		}
+	}
+	if sameInstance {
+		rc.Stats.Probe("same-logmw-twice")
+	}
+	if w.rewr && pos2 >= 0 && rewrPos < lastLog && rewrPos > min(pos, pos2) {
+		rc.Stats.Probe("rewrite-between-logmws")
 	}
 	// Wrap is called one to three times with the same list.
 	nWrap := tp.Range(1, 3)
@@ -355,10 +443,15 @@ func run(rc *kernel.RunCtx) {
 				wrapped: tp.Choose(nWrap),
 			}
 			if tp.Bool(2, 3) {
-				sp.status = []int{200, 201, 204, 400, 404, 500, 503}[tp.Choose(7)]
-				if tp.Bool(1, 6) {
+				sp.status = []int{200, 201, 204, 400, 404, 500, 503, 101}[tp.Choose(8)]
+				if sp.status != http.StatusSwitchingProtocols && tp.Bool(1, 6) {
 					sp.early = []int{100, 102, 103}[tp.Choose(3)]
 				}
+			}
+			sp.failAt = -1
+			if tp.Bool(1, 6) {
+				sp.failAt = tp.Choose(2)
+				rc.Stats.Fault("client-write-error")
 			}
 			sp.panics = tp.Bool(1, 10)
 			// Twins: a request that has method, host and request URI (and
@@ -381,6 +474,15 @@ func run(rc *kernel.RunCtx) {
 			}
 			if tp.Bool(1, 10) {
 				sp.host = ""
+			}
+			sp.hMethod, sp.hURI, sp.lMethod, sp.lURI = sp.method, sp.uri, sp.method, sp.uri
+			if w.rewr {
+				sp.method2 = methods[(indexOf(methods, sp.method)+1+tp.Choose(len(methods)-1))%len(methods)]
+				sp.uri2 = "/v2" + sp.uri
+				sp.hMethod, sp.hURI = sp.method2, sp.uri2
+				if rewrPos < lastLog {
+					sp.lMethod, sp.lURI = sp.method2, sp.uri2
+				}
 			}
 			r := httptest.NewRequest(sp.method, sp.url, strings.NewReader(sp.body))
 			r.Host = sp.host
@@ -412,7 +514,7 @@ func run(rc *kernel.RunCtx) {
 			for _, sp := range plans[ti] {
 				sp := sp
 				k.Ask("request.begin", func() any { w.cur[ti] = sp.id; return nil })
-				rec := &clientRW{hdr: http.Header{}}
+				rec := &clientRW{hdr: http.Header{}, failAt: sp.failAt}
 				pv, stack := serve(wrapped[sp.wrapped], rec, sp.req)
 				if pv != nil && !(sp.panics && pv == http.ErrAbortHandler) {
 					k.Report("panic", kernel.PanicSite(stack), fmt.Sprintf("ServeHTTP panicked: %v\n%s", pv, stack))
@@ -471,9 +573,19 @@ func run(rc *kernel.RunCtx) {
 		if sp.early != 0 {
 			wantEarly = 1
 		}
-		if res.code != wantCode || res.body != sp.reply || res.early != wantEarly {
+		wantBody := sp.reply
+		switch {
+		case sp.status == http.StatusSwitchingProtocols:
+			wantBody = ""
+		case sp.failAt == 0:
+			wantBody = ""
+		case sp.failAt == 1:
+			wantBody = sp.reply[:len(sp.reply)/2]
+		}
+		if res.code != wantCode || res.body != wantBody || res.early != wantEarly {
 			rc.Fail("response", "LogMiddleware.Wrap", fmt.Sprintf(
-				"client of request %d received code=%d body=%q, the handler wrote code=%d body=%q", sp.id, res.code, res.body, wantCode, sp.reply))
+				"client of request %d received code=%d body=%q (1xx: %d), the handler wrote code=%d body=%q (1xx: %d; client gone from body write %d on)",
+				sp.id, res.code, res.body, res.early, wantCode, wantBody, wantEarly, sp.failAt))
 
 			return
 		}
@@ -503,7 +615,12 @@ func run(rc *kernel.RunCtx) {
 				nFinished++
 			}
 		}
-		if nInner != 1 || nFinished > nLogMw || (logEnabled && nFinished != nLogMw) {
+		// The same instance passed twice may or may not log twice.
+		minFinished := nLogMw
+		if sameInstance {
+			minFinished = 1
+		}
+		if nInner != 1 || nFinished > nLogMw || (logEnabled && nFinished < minFinished) {
 			rc.Fail("log-records", "LogMiddleware.Wrap", fmt.Sprintf(
 				"request %d produced log records %v, want the handler's own record and (logging enabled: %v) one \"finished\" per LogMiddleware (%d in the chain)", sp.id, msgs, logEnabled, nLogMw))
 
@@ -524,6 +641,16 @@ func serve(h http.Handler, rw http.ResponseWriter, r *http.Request) (pv any, sta
 	h.ServeHTTP(rw, r)
 
 	return nil, ""
+}
+
+func indexOf(l []string, s string) int {
+	for i, v := range l {
+		if v == s {
+			return i
+		}
+	}
+
+	return 0
 }
 
 func btoa(b bool) string {
